@@ -60,6 +60,8 @@ type Profile struct {
 	// images
 	Boundary        int  // number of boundary images per run
 	WalStmts        int  // number of statements whose every log event gets an image
+	FatP            float64 // probability that a plan's tables hold only rows within a few bytes of the row limit (leaves of 8 maximal cells)
+	fat             bool
 	StrictFlushOnly bool // flush images only of the classes the engine is expected to survive (everything but C04)
 	FlushImgs       int  // number of flush images
 	ContStmts       [2]int
@@ -90,9 +92,15 @@ func (g *gen) newName(prefix string, n int) string { return fmt.Sprintf("%s%d", 
 
 func (g *gen) genCols() []Col {
 	n := g.r.Range(1, 5)
+	if g.pf.fat && n < 2 {
+		n = 2
+	}
 	cols := []Col{{Name: "k", Type: TInt}}
 	for i := 1; i < n; i++ {
 		ty := g.r.Intn(4)
+		if g.pf.fat && i == 1 {
+			ty = TVarchar
+		}
 		c := Col{Name: fmt.Sprintf("c%d", i), Type: ty}
 		if ty == TVarchar {
 			c.Len = int64(g.r.Range(1, 500))
@@ -240,8 +248,8 @@ func (g *gen) genRow(db string, t *MTable, text bool) []Val {
 			break
 		}
 	}
-	// boundary rows: exactly at the limit
-	if g.pf.Values == "extreme" && nvar > 0 && g.r.Chance(0.15) {
+	// boundary rows: exactly at the limit (fat plans: every row within 8 bytes of it)
+	if (g.pf.Values == "extreme" && nvar > 0 && g.r.Chance(0.15)) || (g.pf.fat && nvar > 0) {
 		for i := 1; i < len(t.Cols); i++ {
 			if t.Cols[i].Type == TVarchar {
 				if vals[i].IsNull() {
@@ -249,6 +257,9 @@ func (g *gen) genRow(db string, t *MTable, text bool) []Val {
 				}
 				cur := EncSize(t.Cols, vals)
 				pad := MaxRowBytes - cur
+				if g.pf.fat {
+					pad -= g.r.Intn(2) * g.r.Intn(9)
+				}
 				if pad > 0 {
 					vals[i] = Str(string(vals[i].S) + strings.Repeat("x", pad))
 				}
@@ -1327,6 +1338,7 @@ func Generate(pf *Profile, seed uint64) *Plan {
 	r := NewRng(seed)
 	g := &gen{r: r, pf: pf, m: NewModel(), tags: map[string]int64{}}
 	p := &Plan{Prop: pf.Prop, Seed: seed, Tier: pf.Tier}
+	pf.fat = pf.FatP > 0 && r.Chance(pf.FatP)
 	p.Knobs = g.pickKnobs()
 	n := r.Range(pf.Stmts[0], pf.Stmts[1])
 	small := p.Knobs.CacheCap > 0 && p.Knobs.CacheCap < 1000
